@@ -33,6 +33,110 @@ type constInterp struct {
 	c    *Ctx
 	data types.Object
 	text string
+	// field state: synthetic variables standing for <local or receiver>.<field>
+	fobj map[string]types.Object
+	// constant texts of the return statements reached (nil entry: a non-constant result)
+	returns []*string
+}
+
+const (
+	cvNil    = "\x00nil"
+	cvNonNil = "\x00non-nil"
+)
+
+func (ci *constInterp) fieldVar(o types.Object, field string) types.Object {
+	if ci.fobj == nil {
+		ci.fobj = map[string]types.Object{}
+	}
+	k := fmt.Sprintf("%p.%s", o, field)
+	if v, ok := ci.fobj[k]; ok {
+		return v
+	}
+	v := types.NewVar(token.NoPos, nil, o.Name()+"."+field, types.Typ[types.Invalid])
+	ci.fobj[k] = v
+	return v
+}
+
+// fieldOf: e is x.F or (*x).F for a plain variable x: returns the synthetic variable of that field.
+func (ci *constInterp) fieldOf(e ast.Expr) types.Object {
+	se, ok := unparen(e).(*ast.SelectorExpr)
+	if !ok {
+		return nil
+	}
+	x := unparen(se.X)
+	if st, ok := x.(*ast.StarExpr); ok {
+		x = unparen(st.X)
+	}
+	id, ok := x.(*ast.Ident)
+	if !ok {
+		return nil
+	}
+	o := ci.c.objOf(id)
+	if _, isVar := o.(*types.Var); !isVar {
+		return nil
+	}
+	if sel := ci.c.Info.Selections[se]; sel == nil || sel.Kind() != types.FieldVal {
+		return nil
+	}
+	return ci.fieldVar(o, se.Sel.Name)
+}
+
+func structOf(t types.Type) *types.Struct {
+	if t == nil {
+		return nil
+	}
+	st, _ := derefType(t).Underlying().(*types.Struct)
+	return st
+}
+
+// zeroFields initialises the field state of a freshly declared struct variable.
+func (ci *constInterp) zeroFields(o types.Object, env cenv) {
+	st := structOf(o.Type())
+	if st == nil {
+		return
+	}
+	for i := 0; i < st.NumFields(); i++ {
+		f := st.Field(i)
+		fv := ci.fieldVar(o, f.Name())
+		switch u := f.Type().Underlying().(type) {
+		case *types.Basic:
+			switch {
+			case u.Info()&types.IsBoolean != 0:
+				env[fv] = constant.MakeBool(false)
+			case u.Info()&types.IsString != 0:
+				env[fv] = constant.MakeString("")
+			case u.Info()&types.IsNumeric != 0:
+				env[fv] = constant.MakeInt64(0)
+			}
+		case *types.Pointer, *types.Slice, *types.Map, *types.Interface:
+			env[fv] = constant.MakeString(cvNil)
+		}
+	}
+}
+
+func (ci *constInterp) forgetFields(o types.Object, env cenv) {
+	st := structOf(o.Type())
+	if st == nil {
+		return
+	}
+	for i := 0; i < st.NumFields(); i++ {
+		delete(env, ci.fieldVar(o, st.Field(i).Name()))
+	}
+}
+
+func (ci *constInterp) copyFields(dst, src types.Object, env cenv) {
+	st := structOf(src.Type())
+	if st == nil {
+		return
+	}
+	for i := 0; i < st.NumFields(); i++ {
+		n := st.Field(i).Name()
+		if v, ok := env[ci.fieldVar(src, n)]; ok {
+			env[ci.fieldVar(dst, n)] = v
+		} else {
+			delete(env, ci.fieldVar(dst, n))
+		}
+	}
 }
 
 func (ci *constInterp) eval(e ast.Expr, env cenv) constant.Value {
@@ -45,6 +149,12 @@ func (ci *constInterp) eval(e ast.Expr, env cenv) constant.Value {
 	case *ast.Ident:
 		if v, ok := env[c.objOf(x)]; ok {
 			return v
+		}
+	case *ast.SelectorExpr:
+		if fo := ci.fieldOf(x); fo != nil {
+			if v, ok := env[fo]; ok {
+				return v
+			}
 		}
 	case *ast.CallExpr:
 		if c.isBuiltin(x, "len") && len(x.Args) == 1 {
@@ -80,6 +190,22 @@ func (ci *constInterp) eval(e ast.Expr, env cenv) constant.Value {
 			}
 		}
 	case *ast.BinaryExpr:
+		// comparison of a tracked pointer-like field with nil
+		if x.Op == token.EQL || x.Op == token.NEQ {
+			for _, pr := range [][2]ast.Expr{{x.X, x.Y}, {x.Y, x.X}} {
+				if isNilIdent(c, pr[1]) {
+					if v := ci.eval(pr[0], env); v != nil && v.Kind() == constant.String {
+						switch constant.StringVal(v) {
+						case cvNil:
+							return constant.MakeBool(x.Op == token.EQL)
+						case cvNonNil:
+							return constant.MakeBool(x.Op == token.NEQ)
+						}
+					}
+					return nil
+				}
+			}
+		}
 		l, r := ci.eval(x.X, env), ci.eval(x.Y, env)
 		switch x.Op {
 		case token.LAND:
@@ -190,10 +316,34 @@ func (ci *constInterp) definiteErrorExpr(e ast.Expr) bool {
 func (ci *constInterp) exec(list []ast.Stmt, env cenv) (outcome, cenv, token.Pos) {
 	c := ci.c
 	for _, s := range list {
+		// anything whose address is handed to a call may be overwritten by it
+		switch s.(type) {
+		case *ast.IfStmt, *ast.BlockStmt, *ast.ForStmt, *ast.RangeStmt, *ast.SwitchStmt, *ast.TypeSwitchStmt:
+		default:
+			ast.Inspect(s, func(n ast.Node) bool {
+				if call, ok := n.(*ast.CallExpr); ok {
+					for _, a := range call.Args {
+						if u, ok := unparen(a).(*ast.UnaryExpr); ok && u.Op == token.AND {
+							if id, ok := unparen(u.X).(*ast.Ident); ok && c.objOf(id) != nil {
+								delete(env, c.objOf(id))
+								ci.forgetFields(c.objOf(id), env)
+							}
+							if fo := ci.fieldOf(u.X); fo != nil {
+								delete(env, fo)
+							}
+						}
+					}
+				}
+				return true
+			})
+		}
 		switch st := s.(type) {
 		case *ast.ReturnStmt:
 			if len(st.Results) > 0 && ci.definiteErrorExpr(st.Results[len(st.Results)-1]) {
 				return returnsDefiniteError, env, st.Pos()
+			}
+			if len(st.Results) > 0 {
+				ci.returns = append(ci.returns, ci.bytesOf(st.Results[0], env))
 			}
 			return returnsMaybeOK, env, st.Pos()
 		case *ast.DeclStmt:
@@ -207,6 +357,10 @@ func (ci *constInterp) exec(list []ast.Stmt, env cenv) (outcome, cenv, token.Pos
 									env[o] = v
 								} else {
 									delete(env, o)
+								}
+							} else if structOf(o.Type()) != nil && len(vs.Values) == 0 {
+								if _, isPtr := types.Unalias(o.Type()).(*types.Pointer); !isPtr {
+									ci.zeroFields(o, env)
 								}
 							} else if b, ok := o.Type().Underlying().(*types.Basic); ok && len(vs.Values) == 0 {
 								switch {
@@ -224,6 +378,43 @@ func (ci *constInterp) exec(list []ast.Stmt, env cenv) (outcome, cenv, token.Pos
 			}
 		case *ast.AssignStmt:
 			for i, l := range st.Lhs {
+				// x.F = value
+				if fo := ci.fieldOf(l); fo != nil {
+					delete(env, fo)
+					if len(st.Lhs) == len(st.Rhs) && st.Tok == token.ASSIGN {
+						r := unparen(st.Rhs[i])
+						switch {
+						case isNilIdent(c, r):
+							env[fo] = constant.MakeString(cvNil)
+						default:
+							if u, ok := r.(*ast.UnaryExpr); ok && u.Op == token.AND {
+								env[fo] = constant.MakeString(cvNonNil)
+							} else if v := ci.eval(r, env); v != nil {
+								env[fo] = v
+							}
+						}
+					}
+					continue
+				}
+				// *p = local  /  v = local : the whole struct is copied
+				if len(st.Lhs) == len(st.Rhs) {
+					var dst types.Object
+					if sx, ok := unparen(l).(*ast.StarExpr); ok {
+						if did, ok := unparen(sx.X).(*ast.Ident); ok {
+							dst = c.objOf(did)
+						}
+					}
+					if dst != nil {
+						if sid, ok := unparen(st.Rhs[i]).(*ast.Ident); ok && c.objOf(sid) != nil {
+							ci.copyFields(dst, c.objOf(sid), env)
+						} else if lit, ok := unparen(st.Rhs[i]).(*ast.CompositeLit); ok && len(lit.Elts) == 0 {
+							ci.zeroFields(dst, env)
+						} else {
+							ci.forgetFields(dst, env)
+						}
+						continue
+					}
+				}
 				id, ok := unparen(l).(*ast.Ident)
 				if !ok {
 					continue
@@ -443,6 +634,42 @@ func ruleEncoderConstantsDecodable(c *Ctx) {
 			}
 			c.ob(rule, fmt.Sprintf("%s:%s", n, k), p, out != returnsDefiniteError,
 				fmt.Sprintf("%s.MarshalJSON can emit %s, but %s.UnmarshalJSON rejects exactly that text with an error: the encoded form of a decodable document can no longer be decoded", n, k, n))
+			// round trip of the constant: fold the decoder on the text, carry the fields of the receiver that are
+			// known afterwards over to the encoder, fold the encoder: if it definitely answers with another
+			// constant, the text does not survive decode + encode
+			if out == returnsDefiniteError {
+				continue
+			}
+			ci2 := &constInterp{c: c, data: data, text: k}
+			out2, env2, _ := ci2.exec(ufd.Body.List, cenv{})
+			if out2 == returnsDefiniteError {
+				continue
+			}
+			urecv, mrecv := c.recvObj(ufd), c.recvObj(mfd)
+			st := structOf(named)
+			if urecv == nil || mrecv == nil || st == nil {
+				continue
+			}
+			enc := &constInterp{c: c}
+			menv := cenv{}
+			known := 0
+			for i := 0; i < st.NumFields(); i++ {
+				fname := st.Field(i).Name()
+				if v, ok := env2[ci2.fieldVar(urecv, fname)]; ok {
+					menv[enc.fieldVar(mrecv, fname)] = v
+					known++
+				}
+			}
+			if known == 0 {
+				continue
+			}
+			enc.exec(mfd.Body.List, menv)
+			if len(enc.returns) != 1 || enc.returns[0] == nil {
+				continue // the encoder's answer is not a single known constant under what is known of the value
+			}
+			got := *enc.returns[0]
+			c.ob(rule, fmt.Sprintf("%s:%s:round-trip", n, k), ufd.Pos(), got == k,
+				fmt.Sprintf("%s.UnmarshalJSON turns the text %s, which %s.MarshalJSON itself emits, into a value that is encoded as %s: the constant does not survive a decode/encode round trip", n, k, n, got))
 		}
 	}
 }
